@@ -127,10 +127,14 @@ def stages(tier, seed, witness_search=False):
             # the same histories against the library built with the C intrinsics kernels behind the dispatcher
             LineStage("c-api-intrinsics", scripts, impl="c_ci"),
             # the library compiled as an SSE2-only build (BLAKE3_NO_SSE41 / NO_AVX2 / NO_AVX512): widest SIMD degree 4
-            LineStage("c-api-sse2-only-build", scripts[::2], impl="c_s2")]
+            LineStage("c-api-sse2-only-build", scripts[::2], impl="c_s2"),
+            # the library compiled with -DNDEBUG -std=c99 (what a release build of a C project passes): assertions expand to nothing
+            LineStage("c-api-ndebug-c99-build", scripts[1::2], impl="c_nd")]
 
 
 def replay(d, lean_exe):
+    if d.get("stage") == "c-api-ndebug-c99-build":
+        return replay_line(d, lean_exe, impl="c_nd")
     if d.get("stage") == "c-api-sse2-only-build":
         return replay_line(d, lean_exe, impl="c_s2")
     return replay_line(d, lean_exe, impl="c_ci" if d.get("stage") == "c-api-intrinsics" else "c")
